@@ -15,4 +15,4 @@ Definition fi_xrun (wenv : nat -> wresp) (senv : nat -> bool) := xrun WB FC wal_
 (* side conditions tying the generated parameters to the model *)
 Definition fail_params_ok : bool :=
   C15_ANCHORS_OK && N.eqb C15_BUFWRITER_CAP WAL_BLOCK_SIZE && N.ltb 7 C15_BUFWRITER_CAP &&
-  N.eqb C15_COMMIT_SLOTS 8 && N.eqb C15_COMMIT_PERMITS 7.
+  N.eqb C15_COMMIT_SLOTS 8 && N.eqb C15_COMMIT_PERMITS 7 && C15_ATOMIC_ADD.
